@@ -610,7 +610,10 @@ where
                         }
                     }
                 },
-                frame = self.outgoing_session_frames.recv() => {
+                // Once the channel is closed and drained, `recv()` is immediately
+                // ready with `None` on every poll; polling it again would turn the
+                // wait for the remote close into a busy loop.
+                frame = self.outgoing_session_frames.recv(), if !(self.outgoing_session_frames.is_closed() && self.outgoing_session_frames.is_empty()) => {
                     match frame {
                         Some(frame) => self.on_outgoing_session_frames(frame).await,
                         None => {
